@@ -310,7 +310,10 @@ def _close_list(a, b):
 
 
 # --------------------------------------------------------------------------------------
-LABELS = {2: [[0, 1], [7, 3]], 3: [[0, 1, 2], [7, 3, 11], [40, 0, 12]], 4: [[0, 1, 2, 3], [7, 3, 11, 5], [40, 0, 12, 33]]}
+# person labels: the running number, sparse unsorted labels, and a non-identity PERMUTATION of 0..n-1 (first / last /
+# min / max look like a running number although the rows are not in that order)
+LABELS = {2: [[0, 1], [7, 3], [1, 0]], 3: [[0, 1, 2], [7, 3, 11], [40, 0, 12], [2, 0, 1], [0, 2, 1]],
+          4: [[0, 1, 2, 3], [7, 3, 11, 5], [40, 0, 12, 33], [1, 3, 0, 2], [0, 2, 1, 3]]}
 
 
 def check_sum_by_p_id(ck, n):
